@@ -22,16 +22,28 @@ theorem wit_empty_control : exactAgree ⟨1, 1, [.cond [] 1 gX [0]]⟩ = some fa
 /-- target 2 on a one-bit control list: never executed, exported as `if (b == 0) x q[0];` -/
 theorem wit_target_overflow : exactAgree ⟨1, 1, [.cond [0] 2 gX [0]]⟩ = some false := by decide +kernel
 
-/-- `CU3(0, π/2, 0)` against the published `cu3`: not equal up to a global phase … -/
-theorem wit_cu3_phase :
+/-- `CU3(0, π/2, 0)` is exported as `cu3(0, pi/2, 0)`, which (corrected body of `qelib1.inc`, see the header of
+`Spec/OQ2.lean`) is exactly the controlled `U3` — although `φ + λ ≠ 0` -/
+theorem wit_cu3_ok :
     (libMeaning (α := Q8) (P := QPi) libTable "CU3" [.direct (ang 0), .direct (ang (1/2)), .direct (ang 0)]).map
-      (fun M => phaseEq8 M (Spec.specMatrix (.C (.U3 (ang 0) (ang (1/2)) (ang 0)) : GateTerm QPi))) = some false := by
+      (fun M => phaseEq8 M (Spec.specMatrix (.C (.U3 (ang 0) (ang (1/2)) (ang 0)) : GateTerm QPi))) = some true := by
   decide +kernel
 
-/-- … while `CU3(0, π/2, −π/2)` (φ + λ = 0) is -/
-theorem wit_cu3_ok :
-    (libMeaning (α := Q8) (P := QPi) libTable "CU3" [.direct (ang 0), .direct (ang (1/2)), .direct (ang (-1/2))]).map
-      (fun M => phaseEq8 M (Spec.specMatrix (.C (.U3 (ang 0) (ang (1/2)) (ang (-1/2))) : GateTerm QPi))) = some true := by
+/-- the body of `cu3(θ, φ, λ)` as first printed with the OpenQASM 2.0 specification (without the leading
+`u1((lambda+phi)/2) c;`), at the given angles -/
+def originalCu3Body (t p l : QPi) : List (String × List QPi × List Nat) :=
+  [("u1", [Angle.div (Angle.sub l p) (Angle.ofDec 2 0)], [1]), ("cx", [], [0, 1]),
+   ("u3", [Angle.neg (Angle.div t (Angle.ofDec 2 0)), Angle.ofDec 0 0,
+           Angle.neg (Angle.div (Angle.add p l) (Angle.ofDec 2 0))], [1]),
+   ("cx", [], [0, 1]),
+   ("u3", [Angle.div t (Angle.ofDec 2 0), p, Angle.ofDec 0 0], [1])]
+
+/-- REMARK about the historical library file, NOT a defect of the exporter: the originally printed body of `cu3`
+at `(0, π/2, 0)` is not the controlled `U3(0, π/2, 0)` up to a global phase (it is off by the relative phase
+`e^{i(φ+λ)/2}` on the control) -/
+theorem remark_original_cu3 :
+    (seqMatrix (α := Q8) (P := QPi) 2 (originalCu3Body (ang 0) (ang (1/2)) (ang 0))).map
+      (fun M => phaseEq8 M (Spec.specMatrix (.C (.U3 (ang 0) (ang (1/2)) (ang 0)) : GateTerm QPi))) = some false := by
   decide +kernel
 
 /-- agreement: superposition, measurement, a conditional gate on the whole register -/
